@@ -161,3 +161,126 @@ Definition ep_dump_ci (v : pyval) : pyval :=
 
 Definition entries_ci : list (str * (pyval -> pyval)) :=
   [ (lit "roundtrip_ci", ep_roundtrip_ci); (lit "load_ci", ep_load_ci); (lit "dump_ci", ep_dump_ci) ].
+
+(* ---------------- treeinfo / discinfo *)
+From PM Require Import Model.TreeInfo Base.Ini Gen.Tables.
+
+Definition dict_of (v : pyval) : list (str * pyval) := match v with PDict d => d | _ => [] end.
+Definition fld_or_none (d : list (str * pyval)) (k : str) : pyval := dflt PNone (assoc k d).
+
+Fixpoint get_tvar (fuel : nat) (v : pyval) : option tvar :=
+  match fuel with
+  | O => None
+  | S f =>
+      match v with
+      | PDict d =>
+          let fields := [(lit "id", fld_or_none d (lit "id")); (lit "uid", fld_or_none d (lit "uid"));
+                         (lit "name", fld_or_none d (lit "name")); (lit "type", fld_or_none d (lit "type"))] in
+          let pd := dict_of (fld_or_none d (lit "paths")) in
+          let paths := map (fun field => (field, fld_or_none pd field)) TI_PATH_FIELDS in
+          match (fix go (cs : list (str * pyval)) : option (list (str * tvar)) :=
+                   match cs with
+                   | [] => Some []
+                   | (k, c) :: cs' => match get_tvar f c, go cs' with Some t, Some r => Some ((k, t) :: r) | _, _ => None end
+                   end) (dict_of (fld_or_none d (lit "children"))) with
+          | Some cs => Some (TV fields paths cs)
+          | None => None
+          end
+      | _ => None
+      end
+  end.
+
+Fixpoint put_tvar (fuel : nat) (t : tvar) : pyval :=
+  match fuel with
+  | O => PNone
+  | S f =>
+      match t with
+      | TV fields paths children =>
+          PDict (fields ++ [(lit "paths", PDict (filter (fun kv => match snd kv with PNone => false | _ => true end) paths));
+                            (lit "children", PDict (map (fun kv => (fst kv, put_tvar f (snd kv))) children))])
+      end
+  end.
+
+Definition get_ti (v : pyval) : option ti :=
+  match v with
+  | PDict d =>
+      let sub k := dict_of (fld_or_none d k) in
+      match (fix go (cs : list (str * pyval)) : option (list (str * tvar)) :=
+               match cs with
+               | [] => Some []
+               | (k, c) :: cs' => match get_tvar 12 c, go cs' with Some t, Some r => Some ((k, t) :: r) | _, _ => None end
+               end) (sub (lit "variants")) with
+      | None => None
+      | Some vs =>
+          Some {| ti_release := sub (lit "release");
+                  ti_base_product := match fld_or_none d (lit "base_product") with
+                                     | PDict b => b
+                                     | _ => [(lit "name", PNone); (lit "short", PNone); (lit "version", PNone)]
+                                     end;
+                  ti_tree := sub (lit "tree");
+                  ti_variants := vs;
+                  ti_checksums := map (fun kv => (fst kv, match snd kv with PList [a; b] => (a, b) | _ => (PNone, PNone) end)) (sub (lit "checksums"));
+                  ti_images := map (fun kv => (fst kv, dict_of (snd kv))) (sub (lit "images"));
+                  ti_stage2 := sub (lit "stage2");
+                  ti_media := sub (lit "media") |}
+      end
+  | _ => None
+  end.
+
+Definition put_ti (x : ti) : pyval :=
+  PDict [(lit "release", PDict (ti_release x));
+         (lit "base_product", PDict (ti_base_product x));
+         (lit "tree", PDict (ti_tree x));
+         (lit "variants", PDict (map (fun kv => (fst kv, put_tvar 12 (snd kv))) (ti_variants x)));
+         (lit "checksums", PDict (map (fun kv => (fst kv, PList [fst (snd kv); snd (snd kv)])) (ti_checksums x)));
+         (lit "images", PDict (map (fun kv => (fst kv, PDict (snd kv))) (ti_images x)));
+         (lit "stage2", PDict (ti_stage2 x));
+         (lit "media", PDict (ti_media x))].
+
+Definition ep_dump_ti (v : pyval) : pyval :=
+  match v with
+  | PList [d; mv] =>
+      match get_ti d, get_opt_str mv with
+      | Some x, Some m => out_result PStr (dump_ti x m)
+      | _, _ => bad_input
+      end
+  | _ => bad_input
+  end.
+
+Definition get_ini (v : pyval) : option ini :=
+  match v with
+  | PDict secs =>
+      (fix go (l : list (str * pyval)) : option ini :=
+         match l with
+         | [] => Some []
+         | (s, PDict opts) :: l' =>
+             match (fix go2 (o : list (str * pyval)) : option (list (str * str)) :=
+                      match o with
+                      | [] => Some []
+                      | (k, PStr x) :: o' => match go2 o' with Some r => Some ((k, x) :: r) | None => None end
+                      | _ => None
+                      end) opts, go l' with
+             | Some os, Some r => Some ((s, os) :: r)
+             | _, _ => None
+             end
+         | _ => None
+         end) secs
+  | _ => None
+  end.
+
+(* section table (as the real parser produced it) -> loaded tree described, and its re-dump *)
+Definition ep_load_ti (v : pyval) : pyval :=
+  match get_ini v with
+  | None => bad_input
+  | Some t => out_result (fun x => PList [put_ti x; out_result PStr (dump_ti x None)]) (deser_ti t)
+  end.
+
+Definition ep_dump_di (v : pyval) : pyval :=
+  match v with
+  | PDict d => out_result PStr (dump_di {| di_timestamp := fld_or_none d (lit "timestamp"); di_description := fld_or_none d (lit "description");
+                                           di_arch := fld_or_none d (lit "arch"); di_disc_numbers := fld_or_none d (lit "disc_numbers") |})
+  | _ => bad_input
+  end.
+
+Definition entries_ti : list (str * (pyval -> pyval)) :=
+  [ (lit "dump_ti", ep_dump_ti); (lit "load_ti", ep_load_ti); (lit "dump_di", ep_dump_di) ].
